@@ -72,7 +72,7 @@ Init ==
                  lastPos |-> c0.p, lastCell |-> IF setup.ctx = "deform" THEN 300 ELSE 0,
                  lastMom |-> IF setup.ctx = "hdisp" THEN [i \in 1..2 |-> a0[i].mom] ELSE <<>>,
                  lastE |-> c0, lastK |-> <<>>, lastRes |-> c0, calcAtoms |-> c0, calcRes |-> c0, usable |-> TRUE, evals |-> 1,
-                 added |-> <<>>, deleted |-> <<>>, pdelta |-> 0,
+                 added |-> <<>>, addsz |-> <<>>, deleted |-> <<>>, pdelta |-> 0,
                  nexch |-> IF setup.ctx = "exch" THEN Cardinality(UniqueLabels(lab1)) ELSE 0,
                  labels |-> [m \in {x \in DOMAIN setup.mobj : setup.mobj[x].kind \in {"disp", "exch"}} |-> IF m = "m1" THEN lab1 ELSE lab2],
                  presel |-> [m \in {x \in DOMAIN setup.mobj : setup.mobj[x].kind \in {"disp", "exch"}} |-> NoPre],
@@ -86,16 +86,18 @@ Obs(n) == [atoms |-> [j \in 1..n |-> [sp |-> 29, pos |-> fresh + j, mom |-> fres
            calcAtoms |-> [p |-> [j \in 1..n |-> fresh + j], c |-> s.cell], calcRes |-> [p |-> [j \in 1..n |-> fresh + j], c |-> s.cell]]
 
 (* ---- candidate outcomes of one element -------------------------------------------- *)
+\* (size: number of atoms of the particle an insertion brings; 0 = not an insertion.  In the atomic grand-canonical set-ups
+\*  a SINGLE exchange move may have been given a pre-selected particle of two atoms instead of the one-atom template)
 SubChoices(m) ==
     LET k == setup.mobj[m].kind
-    IN CASE k = "disp" -> {[k |-> "disp", dir |-> "", lab |-> l, ok |-> TRUE, refreshed |-> <<>>] : l \in UniqueLabels(s.labels[m])}
-                          \cup {[k |-> "disp", dir |-> "", lab |-> NoLab, ok |-> FALSE, refreshed |-> <<>>]}
-         [] k = "exch" -> {[k |-> "exch", dir |-> "del", lab |-> l, ok |-> TRUE, refreshed |-> <<>>] : l \in UniqueLabels(s.labels[m])}
-                          \cup (IF Len(s.atoms) + setup.tmplLen <= MaxAtoms
-                                THEN {[k |-> "exch", dir |-> "ins", lab |-> NoLab, ok |-> TRUE, refreshed |-> <<>>]} ELSE {})
-                          \cup {[k |-> "exch", dir |-> "ins", lab |-> NoLab, ok |-> FALSE, refreshed |-> <<>>]}
-         [] k = "cell" -> {[k |-> "cell", dir |-> "", lab |-> NoLab, ok |-> b, refreshed |-> <<>>] : b \in BOOLEAN}
-         [] OTHER      -> {[k |-> "ham", dir |-> "", lab |-> NoLab, ok |-> b, refreshed |-> [j \in 1..Len(s.atoms) |-> fresh + 80 + j]] : b \in BOOLEAN}
+        sizes == {setup.tmplLen} \cup (IF setup.tmplLen = 1 /\ setup.moves[cur].ctype = "single" THEN {2} ELSE {})
+    IN CASE k = "disp" -> {[k |-> "disp", dir |-> "", lab |-> l, ok |-> TRUE, refreshed |-> <<>>, size |-> 0] : l \in UniqueLabels(s.labels[m])}
+                          \cup {[k |-> "disp", dir |-> "", lab |-> NoLab, ok |-> FALSE, refreshed |-> <<>>, size |-> 0]}
+         [] k = "exch" -> {[k |-> "exch", dir |-> "del", lab |-> l, ok |-> TRUE, refreshed |-> <<>>, size |-> 0] : l \in UniqueLabels(s.labels[m])}
+                          \cup {[k |-> "exch", dir |-> "ins", lab |-> NoLab, ok |-> TRUE, refreshed |-> <<>>, size |-> z] : z \in {y \in sizes : Len(s.atoms) + y <= MaxAtoms}}
+                          \cup {[k |-> "exch", dir |-> "ins", lab |-> NoLab, ok |-> FALSE, refreshed |-> <<>>, size |-> z] : z \in sizes}
+         [] k = "cell" -> {[k |-> "cell", dir |-> "", lab |-> NoLab, ok |-> b, refreshed |-> <<>>, size |-> 0] : b \in BOOLEAN}
+         [] OTHER      -> {[k |-> "ham", dir |-> "", lab |-> NoLab, ok |-> b, refreshed |-> [j \in 1..Len(s.atoms) |-> fresh + 80 + j], size |-> 0] : b \in BOOLEAN}
 
 SubOutcomes(el) == IF Len(el) = 1 THEN {<<x>> : x \in SubChoices(el[1])}
                ELSE {<<x, y>> : x \in SubChoices(el[1]), y \in SubChoices(el[2])}
